@@ -190,3 +190,26 @@ if _scan not in (None, ""):
 
     os.scandir = scandir
     os.listdir = listdir
+
+# VF_HEAP_NOISE=<k> : allocate (and keep / free in a seeded pattern) many small objects before anything else runs, so that the
+#                     addresses - hence identity hashes and the iteration order of sets of objects - differ between runs.
+_noise = os.environ.get("VF_HEAP_NOISE")
+if _noise not in (None, "", "0"):
+    import random as _r2
+
+    _rng = _r2.Random(int(_noise))
+    _keep = []
+    for _i in range(20000):
+        _o = [object() for _ in range(_rng.randint(1, 8))]
+        if _rng.random() < 0.5:
+            _keep.append(_o)
+        if _rng.random() < 0.1:
+            _keep.append(bytearray(_rng.randint(1, 5000)))
+    sys._vf_heap_noise = _keep
+
+# VF_CPU_LIMIT=<seconds> : CPU-time limit for the process (a hang that burns CPU ends with SIGXCPU instead of a wall-clock guess)
+_cpu = os.environ.get("VF_CPU_LIMIT")
+if _cpu:
+    import resource as _res
+
+    _res.setrlimit(_res.RLIMIT_CPU, (int(_cpu), int(_cpu) + 5))
